@@ -81,6 +81,8 @@ func canon(b *strings.Builder, o object.Object) {
 		b.WriteString("Q" + hx(v.Inspect()))
 	case object.Macro:
 		b.WriteString("C" + hx(v.Inspect()))
+	case *object.Macro:
+		b.WriteString("C" + hx(v.Inspect()))
 	case object.Error:
 		b.WriteString("E" + hx(v.Value))
 	case object.ReturnValue:
